@@ -85,6 +85,15 @@ func init() {
 }
 
 var root string
+var partsTag string
+
+func hashString(s string) uint32 {
+	h := uint32(2166136261)
+	for i := 0; i < len(s); i++ {
+		h = (h ^ uint32(s[i])) * 16777619
+	}
+	return h
+}
 
 func main() {
 	id := flag.String("p", "", "property id (C01..C20)")
@@ -126,6 +135,25 @@ func main() {
 	pkgDir := filepath.Join(root, "props", strings.ToLower(ID))
 	bin := filepath.Join(build, strings.ToLower(ID)+".test")
 	args := []string{"test", "-c", "-tags", "verif", "-vet=off", "-o", bin}
+	// development aid for sensitivity runs only (the registered commands never set it):
+	// VERIF_REPO=<dir> builds against a scratch copy of the library instead of /repo.
+	if alt := os.Getenv("VERIF_REPO"); alt != "" && alt != "/repo" {
+		gm, err := os.ReadFile(filepath.Join(root, "go.mod"))
+		if err != nil {
+			fmt.Printf("BUILD-FAILED property=%s (cannot read go.mod)\n", ID)
+			os.Exit(2)
+		}
+		tag := fmt.Sprintf("%x", hashString(alt))
+		mf := filepath.Join(build, "alt-"+tag+".mod")
+		_ = os.WriteFile(mf, bytes.Replace(gm, []byte("=> /repo"), []byte("=> "+alt), 1), 0o644)
+		if gs, err := os.ReadFile(filepath.Join(root, "go.sum")); err == nil {
+			_ = os.WriteFile(filepath.Join(build, "alt-"+tag+".sum"), gs, 0o644)
+		}
+		bin = filepath.Join(build, strings.ToLower(ID)+"-"+tag+".test")
+		args = []string{"test", "-c", "-tags", "verif", "-vet=off", "-modfile", mf, "-o", bin}
+		partsTag = "-" + tag
+		fmt.Printf("NOTE building against %s instead of /repo (sensitivity run)\n", alt)
+	}
 	if cfg.Race {
 		args = append(args, "-race")
 	}
@@ -166,7 +194,7 @@ func main() {
 	if *shardsFlag > 0 {
 		shards = *shardsFlag
 	}
-	parts := filepath.Join(build, "parts", ID)
+	parts := filepath.Join(build, "parts", ID+partsTag)
 	_ = os.RemoveAll(parts)
 	_ = os.MkdirAll(parts, 0o755)
 
@@ -474,6 +502,9 @@ func merge(ID, tier string, seed int64, cfg propCfg, parts string, shards int, f
 	b, err := json.MarshalIndent(evd, "", " ")
 	if err != nil {
 		return err
+	}
+	if partsTag != "" {
+		return os.WriteFile(filepath.Join(root, ".build", "evidence"+partsTag+"-"+ID+".json"), b, 0o644)
 	}
 	_ = os.MkdirAll(filepath.Join(root, "evidence"), 0o755)
 	return os.WriteFile(filepath.Join(root, "evidence", ID+".json"), b, 0o644)
